@@ -209,6 +209,9 @@ type stashedDoc struct {
 	f   string
 	v   int
 	doc *client.Document
+	// age, tag: what the object holds in its other (clean) fields - the transaction's view when it was fetched
+	age, tag int
+	seen     bool
 }
 
 type commitRec struct {
@@ -245,6 +248,8 @@ type env struct {
 	// failed to commit; reuseDoc: the object the running step passes again instead of fetching the document
 	failedObjs map[int]stashedDoc
 	reuseDoc   *client.Document
+	staleProbe string
+	staleDoc   int
 	// started: the drawn interleaving is running (the committed starting point is built)
 	started bool
 }
@@ -258,6 +263,7 @@ const (
 	sigDeleteMissingDocPanic  = "C06/panic/collection.Delete-of-missing-document-with-index"
 	sigIndexMissesConcurrent  = "C06/index-ddl-vs-concurrent-writer/index-misses-document"
 	sigFailedMkindexKeepsDesc = "C06/failed-op-partial-effect/create-unique-index-violation-keeps-index-description"
+	sigStaleObjectIndex       = "C06/index-corrupted/update-through-stale-document-object"
 )
 
 // avoid reports whether the case asks to stay clear of the trigger of a listed finding
@@ -549,9 +555,30 @@ func (e *env) doStep(st Step) *hx.Failure {
 			if o, ok := e.failedObjs[st.D]; ok {
 				// outside any transaction, retry the update whose transaction did not commit, with the same object
 				delete(e.failedObjs, st.D)
-				st.R, st.F, st.V = 2, o.f, o.v
-				e.reuseDoc = o.doc
-				e.label("retry-with-the-document-object-of-a-failed-transaction")
+				// stale: an indexed field the retry does not write has changed since the object was fetched
+				cur := e.view(ac).docs[st.D]
+				staleField, staleVal := "", ""
+				if o.f != "age" && e.view(ac).idx != nil {
+					if _, ix := e.view(ac).idx["age"]; ix && cur.age != o.age {
+						staleField, staleVal = "age", strconv.Itoa(cur.age)
+					}
+				}
+				if o.f != "tag" {
+					if _, ix := e.view(ac).idx["tag"]; ix && cur.tag != o.tag {
+						staleField, staleVal = "tag", strconv.Quote(tagPool[cur.tag])
+					}
+				}
+				if staleField != "" && e.avoid(sigStaleObjectIndex) {
+					e.label("avoided:retry-with-stale-object-on-indexed-field")
+				} else {
+					st.R, st.F, st.V = 2, o.f, o.v
+					e.reuseDoc = o.doc
+					e.label("retry-with-the-document-object-of-a-failed-transaction")
+					if staleField != "" && cur.st == live {
+						e.staleProbe = fmt.Sprintf(`query { Users(filter: {%s: {_eq: %s}}) { _docID } }`, staleField, staleVal)
+						e.staleDoc = st.D
+					}
+				}
 			}
 		}
 		if st.A != 0 {
@@ -567,6 +594,21 @@ func (e *env) doStep(st Step) *hx.Failure {
 		applied, f := e.mutation(ac, st)
 		if f != nil {
 			return f
+		}
+		if probe := e.staleProbe; probe != "" {
+			e.staleProbe = ""
+			if applied {
+				// diagnoser of the listed finding: the index now files the document under the stale value of the object,
+				// so a read served by that index no longer finds it under its real value
+				r := e.n.Exec(probe)
+				found := false
+				for _, row := range r.Rows("Users") {
+					found = found || row["_docID"] == e.ids[e.staleDoc]
+				}
+				if r.OK() && !found {
+					return e.failf(sigStaleObjectIndex, "an update through a document object fetched earlier (its transaction did not commit) rewrote the index entry of a field the update does not touch with the object's stale value: %s no longer returns d%d (%s)", probe, e.staleDoc, e.render(e.view(ac)))
+				}
+			}
 		}
 		if st.A == 0 {
 			// an implicit transaction: commits (or rolls back) inside the call
@@ -849,6 +891,9 @@ func (e *env) mutation(ac *actor, st Step) (bool, *hx.Failure) {
 	}
 	e.label("route:" + route)
 	out, f := e.execMutation(ac, st)
+	if n := len(ac.objs); n > 0 && !ac.objs[n-1].seen {
+		ac.objs[n-1].seen, ac.objs[n-1].age, ac.objs[n-1].tag = true, v.docs[st.D].age, v.docs[st.D].tag
+	}
 	if f != nil {
 		if strings.HasPrefix(f.Sig, "C06/panic/") && st.K == "delete" && st.R == 2 && v.docs[st.D].st != live && len(v.idx) > 0 &&
 			strings.Contains(f.Msg, "deleteIndexedDocWithID") {
